@@ -126,6 +126,8 @@ NORMAL_FORMS = {
     'quote': '> {}\n> b\n', 'bullets': '- {}\n- b\n  c\n\n- d\n', 'ordered': '1. {}\n2. b\n', 'nested': '- a\n  - {}\n    > q\n',
     'fence': '```py\n{}\n```\n', 'indented': '    {}\n    b\n', 'thematic': '{}\n\n***\n',
     'html': '<div>\n{}\n</div>\n', 'hard-break': '{}  \nb\\\nc\n',
+    'quote-hard-break': '> {}  \n> b\\\n> c\n', 'fence-blank': '```py\n{}\n\n```\n', 'fence-indented': '  ~~~\n  {}\n\n\n  ~~~\n',
+    'quote-fence': '> ```\n> {} = 1  \n> ```\n', 'item-quote': '1. > {}  \n   > b\n',
 }
 
 
@@ -133,13 +135,16 @@ NORMAL_FORMS = {
        covers=['markdown_renderer.py:MarkdownRenderer.render', 'markdown_renderer.py:MarkdownRenderer.render_quote',
                'markdown_renderer.py:MarkdownRenderer.render_list_item', 'markdown_renderer.py:MarkdownRenderer.render_fenced_code_block',
                'markdown_renderer.py:MarkdownRenderer.render_setext_heading', 'markdown_renderer.py:MarkdownRenderer.render_link_reference_definition_block'],
-       note='documents already in the renderer normal form with one inert word (two symbolic lower-case letters): reproduced byte for byte')
-def m4_normal_form(a: int, b: int) -> bool:
+       note='documents already in the renderer normal form with one inert word (two symbolic lower-case letters), normalize_whitespace symbolic: reproduced byte for byte')
+def m4_normal_form(a: int, b: int, nw: bool) -> bool:
     """
     pre: 97 <= a <= 122 and 97 <= b <= 122
     post: _
     """
+    import mistletoe
     from mistletoe import Document
     s = NORMAL_FORMS[P('sk')].format(chr(a) + chr(b))
-    with MarkdownRenderer() as r:
-        return r.render(Document(s)) == s
+    with MarkdownRenderer(normalize_whitespace=nw) as r:
+        t = r.render(Document(s))
+    # the skeletons use the spacing that normalize_whitespace would produce, so both settings must reproduce them
+    return t == s and mistletoe.markdown(t) == mistletoe.markdown(s)
